@@ -505,44 +505,44 @@ theorem alnum1_not_spaceTab {c : Str} (hc : alnum1 c) : ∀ x ∈ c.head?, isSpa
   | false => rfl
   | true => rw [isWs_of_spaceTab h] at this; cases this
 
+/-- comma-joined line-safe pieces are line-safe -/
+theorem lineSafe_joinWith_of {cs : List Str} (hne : cs ≠ []) (h : ∀ c ∈ cs, LineSafe c) :
+    LineSafe (joinWith ',' cs) := by
+  induction cs with
+  | nil => exact absurd rfl hne
+  | cons c cs ih =>
+    have hc := h c List.mem_cons_self
+    cases cs with
+    | nil => exact hc
+    | cons y ys =>
+      obtain ⟨i1, i2, _, i4⟩ := ih (by simp) (fun x hx => h x (List.mem_cons_of_mem _ hx))
+      obtain ⟨c1, c2, c3, _⟩ := hc
+      refine ⟨by cases c <;> simp [joinWith] at *, ?_, ?_, ?_⟩
+      · simp only [joinWith, List.mem_append, List.mem_cons]
+        rintro (hm | hm | hm)
+        · exact c2 hm
+        · revert hm; decide
+        · exact i2 hm
+      · intro x hx
+        apply c3 x
+        cases c with
+        | nil => exact absurd rfl c1
+        | cons a t => simpa [joinWith] using hx
+      · intro x hx
+        apply i4 x
+        simp only [joinWith] at hx ⊢
+        rw [List.getLast?_append, List.getLast?_cons] at hx
+        cases hl : (joinWith ',' (y :: ys)).getLast? with
+        | none => exact absurd (List.getLast?_eq_none_iff.mp hl) i1
+        | some z => rw [hl] at hx; simpa using hx
+
+theorem lineSafe_alnum1 {c : Str} (hc : alnum1 c) : LineSafe c :=
+  ⟨hc.1, fun hm => by have := hc.2 _ hm; revert this; decide, alnum1_not_spaceTab hc,
+   fun x hx => alnum_not_ws (hc.2 x (List.mem_of_getLast? hx))⟩
+
 /-- comma-joined alphanumeric words are a value that survives on a line -/
-theorem lineSafe_joinWith {cs : List Str} (hne : cs ≠ []) (h : ∀ c ∈ cs, alnum1 c) : LineSafe (joinWith ',' cs) := by
-  have key : ∀ cs : List Str, cs ≠ [] → (∀ c ∈ cs, alnum1 c) →
-      joinWith ',' cs ≠ [] ∧ '\n' ∉ joinWith ',' cs ∧
-      (∀ x ∈ (joinWith ',' cs).head?, isSpaceTab x = false) ∧
-      (∀ x ∈ (joinWith ',' cs).getLast?, isWs x = false) := by
-    intro cs
-    induction cs with
-    | nil => intro h; exact absurd rfl h
-    | cons c cs ih =>
-      intro _ h
-      have hc := h c List.mem_cons_self
-      have hnl : '\n' ∉ c := fun hm => by have := hc.2 _ hm; revert this; decide
-      have hlast : ∀ x ∈ c.getLast?, isWs x = false := fun x hx =>
-        alnum_not_ws (hc.2 x (List.mem_of_getLast? hx))
-      cases cs with
-      | nil => exact ⟨hc.1, hnl, alnum1_not_spaceTab hc, hlast⟩
-      | cons y ys =>
-        obtain ⟨i1, i2, _, i4⟩ := ih (by simp) (fun x hx => h x (List.mem_cons_of_mem _ hx))
-        refine ⟨by cases c <;> simp [joinWith] at * , ?_, ?_, ?_⟩
-        · simp only [joinWith, List.mem_append, List.mem_cons]
-          rintro (hm | hm | hm)
-          · exact hnl hm
-          · revert hm; decide
-          · exact i2 hm
-        · intro x hx
-          apply alnum1_not_spaceTab hc x
-          cases c with
-          | nil => exact absurd rfl hc.1
-          | cons a t => simpa [joinWith] using hx
-        · intro x hx
-          apply i4 x
-          simp only [joinWith] at hx ⊢
-          rw [List.getLast?_append, List.getLast?_cons] at hx
-          cases hl : (joinWith ',' (y :: ys)).getLast? with
-          | none => exact absurd (List.getLast?_eq_none_iff.mp hl) i1
-          | some z => rw [hl] at hx; simpa using hx
-  exact key cs hne h
+theorem lineSafe_joinWith {cs : List Str} (hne : cs ≠ []) (h : ∀ c ∈ cs, alnum1 c) : LineSafe (joinWith ',' cs) :=
+  lineSafe_joinWith_of hne (fun c hc => lineSafe_alnum1 (h c hc))
 
 end Huginn.SigText
 
@@ -580,66 +580,127 @@ theorem loadLine_classes (st : LoadState) {pad : Pad} (hp : WFPad pad) {cs : Lis
   rw [htrim, classes_toList]
   simp [hpre, hparse, hhead, hnil]
 
-theorem parseKeyValue_plain {n r : Str} (hn : alnum1 n) (hr : Delim r) :
-    parseKeyValue (n ++ r) = some ((n, none), r) := by
-  have h1 := alphanumeric1_append hn hr
-  have h2 : space0 r = some ((), r) := by
-    have := space0_append (g := []) (r := r) (fun _ h => by cases h)
-      (fun c r' e => by
-        rcases hr with rfl | ⟨r'', rfl⟩ | ⟨r'', rfl⟩
-        · cases e
-        · cases e; decide
-        · cases e; decide)
-    simpa using this
-  have h3 : tag ['='] r = none := tag_delim_none [] (by decide) (by decide) hr
-  simp [parseKeyValue, h1, h2, h3, opt]
+/-- what may follow a `ua_os` rule: the end of the line or the next `,` -/
+def RuleEnd (r : Str) : Prop := r = [] ∨ ∃ r', r = ',' :: r'
+
+theorem lineSafe_renderRule {r : Str × Option Str} (h : WFRule r) : LineSafe (renderRule r) := by
+  obtain ⟨n, v⟩ := r
+  obtain ⟨hne, hch, hhead, hlast, hv⟩ := h
+  simp only at hne hch hhead hlast hv
+  have hnl : '\n' ∉ n := fun hm => (hch _ hm).2.2 rfl
+  have hst : ∀ c ∈ n.head?, isSpaceTab c = false := by
+    intro c hc
+    have := hhead c hc
+    cases hs : isSpaceTab c with
+    | false => rfl
+    | true => rw [isWs_of_spaceTab hs] at this; cases this
+  cases v with
+  | none => exact ⟨hne, hnl, hst, hlast⟩
+  | some v =>
+    have hvn : '\n' ∉ v := fun hm => (hv v rfl _ hm).2.2 rfl
+    refine ⟨by cases n <;> simp [renderRule] at *, by simp [renderRule, hnl, hvn], ?_, ?_⟩
+    · intro c hc
+      apply hst c
+      cases n with
+      | nil => exact absurd rfl hne
+      | cons a t => simpa [renderRule] using hc
+    · intro c hc
+      have : (renderRule (n, some v)).getLast? = some ']' := by
+        have : renderRule (n, some v) = (n ++ '=' :: '[' :: v) ++ [']'] := by simp [renderRule]
+        rw [this, List.getLast?_concat]
+      rw [this] at hc; cases hc; decide
+
+theorem parseKeyValue_rule {r : Str × Option Str} (h : WFRule r) {rest : Str} (hr : RuleEnd rest) :
+    parseKeyValue (renderRule r ++ rest) = some (r, rest) := by
+  obtain ⟨n, v⟩ := r
+  obtain ⟨hne, hch, _, _, hv⟩ := h
+  simp only at hne hch hv
+  have hn : ∀ c ∈ n, isRuleNameChar c = true := by
+    intro c hc
+    have := hch c hc
+    simp [isRuleNameChar, this.1, this.2.1]
+  have hdelim : Delim rest := by
+    rcases hr with rfl | ⟨r', rfl⟩
+    · exact Delim.nil
+    · exact Delim.comma r'
+  have e : renderRule (n, v) ++ rest = n ++ (valuePart v ++ rest) := by
+    cases v <;> simp [renderRule, valuePart]
+  have hend : ∀ c r', valuePart v ++ rest = c :: r' → isRuleNameChar c = false := by
+    intro c r' ec
+    cases v with
+    | some x => simp [valuePart] at ec; rw [← ec.1]; decide
+    | none =>
+      rcases hr with rfl | ⟨r'', rfl⟩
+      · simp [valuePart] at ec
+      · simp [valuePart] at ec; rw [← ec.1]; decide
+  have hval := opt_bracketValue_valuePart v (fun x hx hc => (hv x hx ']' hc).1 rfl) hdelim
+  rw [e]
+  simp [parseKeyValue, many1_append hne hn hend, hval]
+
+theorem sepLoop_rules {α} (p : Parser α) (pr : α → Str) (xs : List α)
+    (hp : ∀ x ∈ xs, ∀ r', RuleEnd r' → p (pr x ++ r') = some (x, r'))
+    (fuel : Nat) (hf : xs.length ≤ fuel) :
+    sepLoop comma p fuel (tailJoin pr xs) = some (xs, []) := by
+  induction xs generalizing fuel with
+  | nil =>
+    cases fuel with
+    | zero => simp [sepLoop, tailJoin]
+    | succ f => simp [sepLoop, tailJoin, comma]
+  | cons x xs ih =>
+    cases fuel with
+    | zero => simp at hf
+    | succ f =>
+      have hre : RuleEnd (tailJoin pr xs) := by
+        cases xs with
+        | nil => exact Or.inl rfl
+        | cons y ys => exact Or.inr ⟨_, rfl⟩
+      have hx := hp x List.mem_cons_self _ hre
+      have ih' := ih (fun y hy => hp y (List.mem_cons_of_mem _ hy)) f (by simpa using hf)
+      have hlen : (tailJoin pr xs).length ≠ (',' :: (pr x ++ tailJoin pr xs)).length := by
+        simp; omega
+      simp only [tailJoin, List.cons_append, sepLoop, comma_cons, hx]
+      simp only [hlen, if_false, ih']
+
+theorem sepList0_rules {α} (p : Parser α) (pr : α → Str) (x : α) (xs : List α)
+    (hp : ∀ y ∈ x :: xs, ∀ r', RuleEnd r' → p (pr y ++ r') = some (y, r')) :
+    sepList0 comma p (joinComma pr (x :: xs)) = some (x :: xs, []) := by
+  have hre : RuleEnd (tailJoin pr xs) := by
+    cases xs with
+    | nil => exact Or.inl rfl
+    | cons y ys => exact Or.inr ⟨_, rfl⟩
+  have hx := hp x List.mem_cons_self _ hre
+  have hl := sepLoop_rules p pr xs (fun y hy => hp y (List.mem_cons_of_mem _ hy))
+    ((tailJoin pr xs).length + 1) (by have := length_tailJoin pr xs; omega)
+  simp only [joinComma_cons, sepList0, hx, hl]
 
 theorem loadLine_uaOs (st : LoadState) {pad : Pad} (hp : WFPad pad) {rs : List (Str × Option Str)}
-    (hne : rs ≠ []) (h : ∀ r ∈ rs, ¬ Huginn.KF.C06.ruleUnreadable r) :
+    (hne : rs ≠ []) (h : ∀ r ∈ rs, WFRule r) :
     loadLine st (named pad "ua_os" (joinWith ',' (rs.map renderRule))) =
       .ok { st with db := { st.db with uaOs := st.db.uaOs ++ rs } } := by
-  -- every rule is a bare alphanumeric name
-  have hr : ∀ r ∈ rs, alnum1 r.1 ∧ r.2 = none := by
-    intro r hr
-    have := h r hr
-    simp only [Huginn.KF.C06.ruleUnreadable, not_or, Decidable.not_not] at this
-    exact ⟨this.2, by cases h2 : r.2 <;> simp_all⟩
-  have hnames : rs.map renderRule = rs.map (·.1) := by
-    apply List.map_congr_left
-    intro r hm
-    obtain ⟨n, v⟩ := r
-    have := (hr _ hm).2
-    simp only at this; subst this; rfl
-  have hne' : rs.map (·.1) ≠ [] := by simpa using hne
-  have hal : ∀ c ∈ rs.map (·.1), alnum1 c := by
+  have hne' : rs.map renderRule ≠ [] := by simpa using hne
+  have hv : LineSafe (joinWith ',' (rs.map renderRule)) := lineSafe_joinWith_of hne' (by
     intro c hc
     obtain ⟨r, hm, rfl⟩ := List.mem_map.mp hc
-    exact (hr r hm).1
-  have hv := lineSafe_joinWith hne' hal
-  rw [hnames]
-  have htrim := trim_named hp (n := "ua_os") (v := joinWith ',' (rs.map (·.1))) (by decide) hv
-  have hlist : sepList0 comma parseKeyValue (joinWith ',' (rs.map (·.1))) = some (rs, []) := by
-    have := sepList0_joinComma parseKeyValue (fun r : Str × Option Str => r.1) rs (r := []) (Or.inl rfl)
-      (fun r hm r' hr' => by
-        have := parseKeyValue_plain (hr r hm).1 hr'
-        obtain ⟨n, v⟩ := r
-        have hv := (hr _ hm).2
-        simp only at hv; subst hv
-        exact this) (fun e => absurd e hne)
-    have e := joinComma_eq_joinWith_map (fun r : Str × Option Str => r.1) rs
-    rw [e] at this
-    simpa using this
-  have hpost : space0 (pad.post ++ joinWith ',' (rs.map (·.1))) = some ((), joinWith ',' (rs.map (·.1))) :=
+    exact lineSafe_renderRule (h r hm))
+  have htrim := trim_named hp (n := "ua_os") (v := joinWith ',' (rs.map renderRule)) (by decide) hv
+  have hlist : sepList0 comma parseKeyValue (joinWith ',' (rs.map renderRule)) = some (rs, []) := by
+    rw [← joinComma_eq_joinWith_map]
+    cases rs with
+    | nil => exact absurd rfl hne
+    | cons x xs =>
+      exact sepList0_rules parseKeyValue renderRule x xs (fun y hy r' hr' => parseKeyValue_rule (h y hy) hr')
+  have hpost : space0 (pad.post ++ joinWith ',' (rs.map renderRule)) = some ((), joinWith ',' (rs.map renderRule)) :=
     space0_append hp.post (fun c r' e => hv.2.2.1 c (by rw [e]; rfl))
-  have hparse : parseUaOs (coreOf pad uaOsKw (joinWith ',' (rs.map (·.1)))) = some (rs, []) := by
+  have hparse : parseUaOs (coreOf pad uaOsKw (joinWith ',' (rs.map renderRule))) = some (rs, []) := by
     simp [parseUaOs, coreOf, space0_pre hp.pre, hpost, hlist]
-  have hpre : stripPrefix uaOsKw (coreOf pad uaOsKw (joinWith ',' (rs.map (·.1)))) =
-      some (pad.pre ++ '=' :: (pad.post ++ joinWith ',' (rs.map (·.1)))) := by
+  have hpre : stripPrefix uaOsKw (coreOf pad uaOsKw (joinWith ',' (rs.map renderRule))) =
+      some (pad.pre ++ '=' :: (pad.post ++ joinWith ',' (rs.map renderRule))) := by
     simp [coreOf, stripPrefix_append]
-  have hcl : stripPrefix classesKw (coreOf pad uaOsKw (joinWith ',' (rs.map (·.1)))) = none := by
+  have hcl : stripPrefix classesKw (coreOf pad uaOsKw (joinWith ',' (rs.map renderRule))) = none := by
     simp [coreOf, classesKw_eq, uaOsKw_eq, stripPrefix]
-  have hhead : (coreOf pad uaOsKw (joinWith ',' (rs.map (·.1)))).head? = some 'u' := by simp [coreOf, uaOsKw_eq]
-  have hnil : coreOf pad uaOsKw (joinWith ',' (rs.map (·.1))) ≠ [] := by simp [coreOf, uaOsKw_eq]
+  have hhead : (coreOf pad uaOsKw (joinWith ',' (rs.map renderRule))).head? = some 'u' := by
+    simp [coreOf, uaOsKw_eq]
+  have hnil : coreOf pad uaOsKw (joinWith ',' (rs.map renderRule)) ≠ [] := by simp [coreOf, uaOsKw_eq]
   unfold loadLine
   rw [htrim, uaOs_toList]
   simp [hpre, hcl, hparse, hhead, hnil]
